@@ -124,7 +124,7 @@ c.canary("result == spec.be(s)")
 
 c = REG.contract(M + "random_scalar")
 c.params(entropy_f="entropy").returns("int").pure()
-c.ensures("result == spec.be(spec.ent(entropy_f, 0, 64)) % L", name="512-bits-mod-L", tags="C11 C03")
+c.ensures("result == spec.be(spec.ent(entropy_f, 0, 64)) % L", name="512-bits-mod-L", tags="C11 C03 C16")
 c.ensures("0 <= result and result < L", name="range", tags="C11 C04")
 c.ensures("spec.entropy_calls() == 1 and spec.entropy_sizes_all(64)", name="one-draw-of-64-bytes", tags="C11")
 c.canary("result == spec.be(spec.ent(entropy_f, 0, 32)) % L")
